@@ -10,7 +10,7 @@
 (* received bytes; accepted); behaviour after a second CER is not judged.                     *)
 EXTENDS MonBase
 
-Init == [i |-> 0, viol |-> {}, t |-> 0,
+Init == [i |-> 0, viol |-> {}, t |-> 0, reg |-> {},
          dir   |-> [c \in CIds |-> ""],
          est   |-> [c \in CIds |-> FALSE],    \* transport established
          succ  |-> [c \in CIds |-> FALSE],    \* capabilities exchange succeeded
@@ -23,19 +23,19 @@ Init == [i |-> 0, viol |-> {}, t |-> 0,
 
 IsCer(m) == m.cmd = "CE" /\ m.req
 IsCea(m) == m.cmd = "CE" /\ ~m.req
-Common(m) == (NodeAuth \cap ToSet(m.auth)) \cup (NodeAcct \cap ToSet(m.acct))
+Common(m, reg) == (NodeAuthR(reg) \cap ToSet(m.auth)) \cup (NodeAcctR(reg) \cap ToSet(m.acct))
 \* what a CEA of the node carries besides its result: identity, addresses, vendor, product, application ids (judged on the
 \* content digest `x` of transmitted messages; model messages carry none)
 HasX(m) == "x" \in DOMAIN m
-CeaContentOk(m) == ~HasX(m) \/
+CeaContentOk(m, reg) == ~HasX(m) \/
   /\ m.x.noh = 1 /\ m.x.orlm = MCfg.node.realm
   /\ (MCfg.node.listen => m.x.ips = MCfg.node.ips)
   /\ m.x.vid = MCfg.node.vendor /\ m.x.prod = MCfg.node.product
-  /\ ToSet(m.x.auth) = NodeAuth /\ Len(m.x.auth) = Cardinality(NodeAuth)
-  /\ ToSet(m.x.acct) = NodeAcct /\ Len(m.x.acct) = Cardinality(NodeAcct)
-Expect(m) == IF m.oh = "" THEN "any"
+  /\ ToSet(m.x.auth) = NodeAuthR(reg) /\ Len(m.x.auth) = Cardinality(NodeAuthR(reg))
+  /\ ToSet(m.x.acct) = NodeAcctR(reg) /\ Len(m.x.acct) = Cardinality(NodeAcctR(reg))
+Expect(m, reg) == IF m.oh = "" THEN "any"
              ELSE IF m.oh \notin MPeers THEN "3010"
-             ELSE IF Common(m) = {} /\ ~m.relay THEN "5010" ELSE "2001"
+             ELSE IF Common(m, reg) = {} /\ ~m.relay THEN "5010" ELSE "2001"
 
 \* ---- what the step's feed implies -------------------------------------------
 FirstCerIdx(ms) == IF \E j \in 1..Len(ms) : IsCer(ms[j]) THEN CHOOSE j \in 1..Len(ms) : IsCer(ms[j]) /\ \A k \in 1..(j - 1) : ~IsCer(ms[k]) ELSE 0
@@ -55,7 +55,7 @@ StepN(M, st) ==
       ai  == IF pre /\ M0.dir[c0] = "out" /\ ~M0.ceaSeen[c0] THEN FirstCeaIdx(ms) ELSE 0     \* first (well-formed) CEA of an outbound connection
       ncer == Len(SelectSeq(ms, IsCer))
       inTime == now - M0.lastRx[c0] <= (IF M0.dir[c0] = "out" THEN Eff(M0.opeer[c0], "cea") ELSE MCfg.node.cer)
-      exp == IF ci # 0 /\ ncer = 1 /\ inTime THEN Expect(ms[ci]) ELSE "none"   \* (a CER after the timeout, or a second CER, is not judged)
+      exp == IF ci # 0 /\ ncer = 1 /\ inTime THEN Expect(ms[ci], M0.reg) ELSE "none"   \* (a CER after the timeout, or a second CER, is not judged)
       sent2001(c) == \E j \in 1..Len(out) : out[j].ev = "tx" /\ out[j].c = c /\ IsCea(out[j].m) /\ out[j].m.rc = 2001
       got2001 == pre /\ M0.dir[c0] = "out" /\ \E j \in 1..Len(ms) : GoodCea(ms[j]) /\ ms[j].rc = 2001
       \* success reached in this step
@@ -86,7 +86,7 @@ StepN(M, st) ==
           [] OTHER -> {}
       vContent == IF exp \in {"2001", "3010", "5010"}
                   THEN {"cea_content_wrong" : j \in {k \in 1..Len(out) : out[k].ev = "tx" /\ out[k].c = c0 /\ IsCea(out[k].m) /\
-                                                                          Key(out[k].m) = Key(ms[ci]) /\ ~CeaContentOk(out[k].m)}}
+                                                                          Key(out[k].m) = Key(ms[ci]) /\ ~CeaContentOk(out[k].m, M0.reg)}}
                   ELSE {}
       \* (d) outbound: ready only on 2001 CEA; any other result closes
       vCea == IF ai # 0 /\ inTime /\ ms[ai].rc # 2001 /\ ~closedNow(c0) THEN {"cea_rejected_not_closed"} ELSE {}
@@ -104,7 +104,7 @@ StepN(M, st) ==
       sigs == {"non_ce_traffic_answered_before_ce" : j \in badTx} \cup {"app_saw_request_before_ce" : j \in badApp} \cup
               vOutcome \cup vContent \cup vCea \cup vReady \cup {"ce_timeout_not_enforced" : c \in late} \cup {"ce_timeout_too_early" : c \in early}
       \* ---- state update
-      M1 == [M0 EXCEPT !.viol = @ \cup {[sig |-> s, at |-> M0.i] : s \in sigs}, !.t = now]
+      M1 == [M0 EXCEPT !.viol = @ \cup {[sig |-> s, at |-> M0.i] : s \in sigs}, !.t = now, !.reg = RegNext(@, st)]
       M2 == [M1 EXCEPT !.succ = [c \in CIds |-> succNow(c)],
                        !.cerSeen = [c \in CIds |-> @[c] \/ (c = c0 /\ ci # 0)],
                        !.ceaSeen = [c \in CIds |-> @[c] \/ (c = c0 /\ ai # 0)],
